@@ -347,9 +347,27 @@ structure ConcObs where
   detector : String
   races : String
 
+/-- round 4: a race between a gun READING the time stamps of its own per-shot trace (`(*TraceTimings).Get…`) and a hook
+of that trace (`CreateHTTPTrace.funcN`) running on a goroutine of the transport: inside one instance. It gets a verdict
+key of its own (`race-own-trace`) — the defect found in round 4 (fixes/C11-trace-timings-mutex.diff) —; two hooks racing
+with each other, or anything else, stay `race`. -/
+def ownTraceRace (r : String) : Bool :=
+  let isGetter := fun (s : String) => (s.splitOn "(*TraceTimings).Get").length == 2
+  let isHook := fun (s : String) => (s.splitOn "CreateHTTPTrace.func").length == 2
+  match r.splitOn "~" with
+  | [a, b] => (isGetter a && isHook b) || (isGetter b && isHook a)
+  | _ => false
+
+/-- the verdict for a non-empty list of race reports: the first one that is not of the class above, if any -/
+def raceVerdict (races : String) : String :=
+  let rs := races.splitOn ","
+  match rs.find? (fun r => !ownTraceRace r) with
+  | some r => s!"fail:race:{r}"
+  | none => s!"fail:race-own-trace:{rs.headD ""}"
+
 def judgeConc (tbl : List C11LockRow) (objs : List String) (o : ConcObs) : String :=
   if o.fatal != "-" then s!"fail:fatal:{o.fatal}"
-  else if o.races != "-" then s!"fail:race:{((o.races.splitOn ",").headD "")}"
+  else if o.races != "-" then raceVerdict o.races
   else match judgeLocks tbl objs with
     | "ok" => if o.detector != "on" then "skip:detector-off" else "ok"
     | v => v
